@@ -45,7 +45,7 @@ func NewResult() *Result {
 	return &Result{Outcomes: map[string]int64{}, Counters: map[string]int64{}}
 }
 
-func (r *Result) Outcome(sig string)        { r.Outcomes[sig]++ }
+func (r *Result) Outcome(sig string)         { r.Outcomes[sig]++ }
 func (r *Result) Count(name string, n int64) { r.Counters[name] += n }
 func (r *Result) Sample(s interface{}) {
 	if len(r.Samples) < 6 {
@@ -124,6 +124,17 @@ type Ctx struct {
 	Res      *Result
 	Replay   *Violation // non-nil: re-execute just this case and describe it
 	Verbose  bool
+	Claims   *Claims // shared claim table (nil when not sharded)
+	ordinal  int
+}
+
+// NextClaim returns the claim function for the next scenario of this run (nil when unsharded).
+func (c *Ctx) NextClaim() func(int64) bool {
+	if c.Claims == nil || c.NShards <= 1 {
+		return nil
+	}
+	c.ordinal++
+	return c.Claims.For(c.ordinal, c.Shard, c.NShards)
 }
 
 func (c *Ctx) Thorough() bool { return c.Tier == "thorough" }
@@ -136,6 +147,7 @@ type Check struct {
 	Assumptions []string
 	Parallel    bool // run as NShards worker processes
 	Workers     int  // 0 = default (16)
+	Procs       int  // GOMAXPROCS of each worker (0 = 2)
 	// Budget is the internal wall-clock budget per tier; when exceeded the run ends with exhaustive:false.
 	QuickBudget    time.Duration
 	ThoroughBudget time.Duration
